@@ -13,7 +13,7 @@ CLAIMS = {
         level="fault_enumeration",
         technique="round-trip and differential property-based testing with an independent RIFF/WAVE encoder (static decode vs encoder values, streaming vs static, seek sequences on index-coded files), generated single-byte corruptions and truncations of valid files, and the repository's compressed assets",
         text="Generated WAV files in every PCM encoding / channel count / length / rate are encoded by an independent writer and must load to exactly the encoded values; the same bytes streamed at rate 1 must yield exactly the loaded frames from any start position, and seek sequences on index-coded files must continue contiguously from the requested frame; every generated single-byte corruption (header-biased) and truncation point must give an error or a prefix, never a panic, a hang (watchdog) or more frames than bytes; the shipped ogg/wav assets are streamed and loaded and compared frame for frame. Random enumeration of fault positions with shrinking.",
-        note="Decoder threads are real and kept ahead through hook H2. Compressed streams are compared from start position 0 only (the non-zero start is a known finding); the thorough tier adds a libFuzzer stage (fuzz/c18_decode, 250 000 runs, oracle inside the target, artifacts confirmed by a strict replay before they count).",
+        note="Decoder threads are real and kept ahead through hook H2. Compressed assets are compared from any start position and across loop wraps (the non-zero start was a finding, fixed in /repo 4a3a6aa); the thorough tier adds a libFuzzer stage (fuzz/c18_decode, 250 000 runs, oracle inside the target, artifacts confirmed by a strict replay before they count).",
         design="5/C18",
     ),
     "C14": dict(
